@@ -389,6 +389,10 @@ namespace bxdecay0 {
   {
     if (is_trace()) std::cerr << "[trace] bxdecay0::event_reader::_at_unconfigure_: Entering...\n";
     _close_current_file_();
+    // Back to the state of a newly constructed reader, so that another configuration can be set
+    // (the termination flag and the event counters used to survive reset_configuration):
+    _pimpl_.reset(new pimpl_type(*this));
+    _terminated_ = false;
     if (is_trace()) std::cerr << "[trace] bxdecay0::event_reader::_at_unconfigure_: Exiting...\n";
     return;
   }
